@@ -206,11 +206,27 @@ pub fn to_tree_binary<T: Serialize + ?Sized>(v: &T) -> Option<Tree> {
 /// the flag is what `is_human_readable()` reports
 pub struct TreeSer(pub bool);
 
-pub struct SeqSer(Vec<Tree>, bool);
+pub struct SeqSer(Vec<Tree>, bool, Option<usize>);
 pub struct TupleVariantSer(String, String, Vec<Tree>, bool);
 pub struct StructVariantSer(String, String, Vec<(String, Tree)>, bool);
-pub struct StructSer(String, Vec<(String, Tree)>, bool);
-pub struct MapSer(Vec<(Tree, Tree)>, Option<Tree>, bool);
+pub struct StructSer(String, Vec<(String, Tree)>, bool, usize);
+pub struct MapSer(Vec<(Tree, Tree)>, Option<Tree>, bool, Option<usize>);
+
+/// Binary self-describing formats are length-prefixed: a container announces its
+/// length before its elements.  If more elements are written than announced, a
+/// reader sees only the announced ones; if fewer, the image is malformed.
+fn framed<T>(mut items: Vec<T>, declared: Option<usize>, binary: bool) -> Result<Vec<T>, StoreError> {
+    if binary {
+        if let Some(n) = declared {
+            if items.len() > n {
+                items.truncate(n);
+            } else if items.len() < n {
+                return Err(StoreError(format!("container announced {} elements but {} were written", n, items.len())));
+            }
+        }
+    }
+    Ok(items)
+}
 
 impl ser::Serializer for TreeSer {
     type Ok = Tree;
@@ -310,13 +326,13 @@ impl ser::Serializer for TreeSer {
         ))
     }
     fn serialize_seq(self, len: Option<usize>) -> Result<SeqSer, StoreError> {
-        Ok(SeqSer(Vec::with_capacity(len.unwrap_or(0)), self.0))
+        Ok(SeqSer(Vec::with_capacity(len.unwrap_or(0)), self.0, len))
     }
     fn serialize_tuple(self, len: usize) -> Result<SeqSer, StoreError> {
-        Ok(SeqSer(Vec::with_capacity(len), self.0))
+        Ok(SeqSer(Vec::with_capacity(len), self.0, Some(len)))
     }
     fn serialize_tuple_struct(self, _n: &'static str, len: usize) -> Result<SeqSer, StoreError> {
-        Ok(SeqSer(Vec::with_capacity(len), self.0))
+        Ok(SeqSer(Vec::with_capacity(len), self.0, Some(len)))
     }
     fn serialize_tuple_variant(
         self,
@@ -334,10 +350,10 @@ impl ser::Serializer for TreeSer {
         Ok(Tree::U128(v))
     }
     fn serialize_map(self, _len: Option<usize>) -> Result<MapSer, StoreError> {
-        Ok(MapSer(Vec::new(), None, self.0))
+        Ok(MapSer(Vec::new(), None, self.0, _len))
     }
     fn serialize_struct(self, name: &'static str, len: usize) -> Result<StructSer, StoreError> {
-        Ok(StructSer(name.into(), Vec::with_capacity(len), self.0))
+        Ok(StructSer(name.into(), Vec::with_capacity(len), self.0, len))
     }
     fn serialize_struct_variant(
         self,
@@ -358,7 +374,7 @@ impl ser::SerializeSeq for SeqSer {
         Ok(())
     }
     fn end(self) -> Result<Tree, StoreError> {
-        Ok(Tree::Seq(self.0))
+        Ok(Tree::Seq(framed(self.0, self.2, !self.1)?))
     }
 }
 impl ser::SerializeTuple for SeqSer {
@@ -369,7 +385,7 @@ impl ser::SerializeTuple for SeqSer {
         Ok(())
     }
     fn end(self) -> Result<Tree, StoreError> {
-        Ok(Tree::Seq(self.0))
+        Ok(Tree::Seq(framed(self.0, self.2, !self.1)?))
     }
 }
 impl ser::SerializeTupleStruct for SeqSer {
@@ -380,7 +396,7 @@ impl ser::SerializeTupleStruct for SeqSer {
         Ok(())
     }
     fn end(self) -> Result<Tree, StoreError> {
-        Ok(Tree::Seq(self.0))
+        Ok(Tree::Seq(framed(self.0, self.2, !self.1)?))
     }
 }
 impl ser::SerializeTupleVariant for TupleVariantSer {
@@ -417,7 +433,8 @@ impl ser::SerializeStruct for StructSer {
         Ok(())
     }
     fn end(self) -> Result<Tree, StoreError> {
-        Ok(Tree::Struct(self.0, self.1))
+        let n = self.3;
+        Ok(Tree::Struct(self.0, framed(self.1, Some(n), !self.2)?))
     }
 }
 impl ser::SerializeMap for MapSer {
@@ -433,7 +450,7 @@ impl ser::SerializeMap for MapSer {
         Ok(())
     }
     fn end(self) -> Result<Tree, StoreError> {
-        Ok(Tree::Map(self.0))
+        Ok(Tree::Map(framed(self.0, self.3, !self.2)?))
     }
 }
 
